@@ -68,14 +68,14 @@ PLAN = {
         rule='histories (pure data, <= 45 ops quick / 120 thorough) by 3 users over FX, a module-owned multi-chain pair and an externally-owned pair on 3 chains (eth, bsc, tron) with generated timeout / block-time parameters: send, cancel, increase-fee and bridge-call through Cosmos messages and through the precompile (crossChain, cancelSendToExternal, increaseBridgeFee, bridgeCall), request-batch with generated base/minimum fee, deposits (bech32 / erc20 target) and inbound bridge calls as oracle claims with deferred executeClaim, batch-executed events in and out of order, bridge-call results (success / failure), height-only events with jumps to timeout-1 / timeout / timeout+1 of open objects, fxcore height jumps, and a governance raw-store reset of the observed height. The harness plays the external contract (height < timeout, batch nonce increasing per token) and only emits admissible events. ' + "Oracle: ledger per token group after every step: held by tracked accounts (all representations) + pool/batches/outgoing calls + observed-but-unexecuted inbound claims = initial + observed deposits - withdrawals observed as executed; every tracked account's holdings change by exactly what the operation states; for the module-owned multi-chain token what is queued towards plus executed on one external chain never exceeds what came in through it; and a final probe on a branch of the end state (genesis FX escrow paid out beforehand, so the escrow holds only what the history put there): every queued transfer is cancelled by its owner with amount+fee refunded, every holder sends all they hold (bounded per chain by what that chain's contract holds for the multi-chain token) and everything that left a home-chain token's chain comes back as one deposit - none may be refused. Generator: most operations focus on one (chain, token), composites send..batch and far-batch/reset/near-batch/boundary-jump, large sends of a quarter to all of a balance. non-trivial = history with a deposit, a withdrawal door and a refund/cancel/timeout over >= 2 token kinds",
         assumptions=["IBC vouchers are left to C19", "tokens originating on fxcore are only deposited back up to the amount currently out on that chain (the external contract cannot release more)"],
         quick=[dict(test="TestC04", cases=1200, shards=16, timeout=900)],
-        thorough=[dict(test="TestC04", cases=40000, shards=16, timeout=3400, shrink=120)],
+        thorough=[dict(test="TestC04", cases=16000, shards=16, timeout=3400, shrink=120)],
     ),
     "C05": dict(
         level="exploration",
         rule='histories (pure data, <= 45 ops quick / 120 thorough) by 3 users over FX, a module-owned multi-chain pair and an externally-owned pair on 3 chains (eth, bsc, tron) with generated timeout / block-time parameters: send, cancel, increase-fee and bridge-call through Cosmos messages and through the precompile (crossChain, cancelSendToExternal, increaseBridgeFee, bridgeCall), request-batch with generated base/minimum fee, deposits (bech32 / erc20 target) and inbound bridge calls as oracle claims with deferred executeClaim, batch-executed events in and out of order, bridge-call results (success / failure), height-only events with jumps to timeout-1 / timeout / timeout+1 of open objects, fxcore height jumps, and a governance raw-store reset of the observed height. The harness plays the external contract (height < timeout, batch nonce increasing per token) and only emits admissible events. ' + "Oracle: reference model of pool / batches / calls compared with the decoded stores after every step (each id in exactly one place, fields byte-equal to what the creator supplied, ids strictly increasing), settlement amounts per account, cancel only by the creator, batch cancel returns transfers unchanged, a call whose execution was observed is never refunded. non-trivial = history with a batch and (cancel after batching, out-of-order execution, fee increase or batch timeout)",
         assumptions=["releases are observed (not predicted) and then validated, so a different but property-conforming release order would not alarm"],
         quick=[dict(test="TestC05", cases=1200, shards=16, timeout=900)],
-        thorough=[dict(test="TestC05", cases=40000, shards=16, timeout=3400, shrink=120)],
+        thorough=[dict(test="TestC05", cases=24000, shards=16, timeout=3400, shrink=120)],
     ),
     "C06": dict(
         level="exploration",
